@@ -1,11 +1,69 @@
-/- Driver ops for C18. -/
+/- Driver ops for C18 (border relocation, sub-border indices). -/
 import Driver.Loop
+import Model.Slim
+import Model.Border
 
 open Lean Model
 
 namespace Driver.C18
 
-def ops : List (String × Op) := []
+instance : NatCast Float := ⟨Float.ofNat⟩
+
+def getPair (f : Json → Except String α) (j : Json) : Except String (α × α) := do
+  match ← getArr j with
+  | [a, b] => pure (← f a, ← f b)
+  | _ => throw "expected pair"
+
+def pairJson (f : α → Json) (p : α × α) : Json := Json.arr #[f p.1, f p.2]
+
+def optNatToJson : Option Nat → Json
+  | some n => natToJson n
+  | none => Json.null
+
+/-- sub-border slim indexes in exact arithmetic; per border pixel the code's answer (last maximiser)
+    and the full set of exact maximisers (tie set). -/
+def subBorder : Op := fun j => do
+  let m ← getMask (← field j "mask")
+  let sub ← getNats (← field j "sub")
+  let border ← getNats (← field j "border")
+  let total := Impl.totalPixels m
+  if sub.length ≠ total then throw "shape_mismatch"
+  let res : List (Option Nat) := Impl.subBorderSlim (α := Rat) m sub total border
+  let tbl := Impl.subSlimIndexesForSlimIndex m sub total
+  let g : List (Rat × Rat) := Impl.subGrid m (1, 1) (0, 0) sub
+  let c := Impl.gridCentre g
+  let ties := border.map fun b => Impl.furthestTies g (tbl.getD b []) c
+  pure (obj [("idx", listToJson optNatToJson res), ("ties", listToJson natsToJson ties)])
+
+def subGrid : Op := fun j => do
+  let m ← getMask (← field j "mask")
+  let sub ← getNats (← field j "sub")
+  let ps ← getPair getRat (← field j "pixel_scales")
+  let origin ← getPair getRat (← field j "origin")
+  if sub.length ≠ Impl.totalPixels m then throw "shape_mismatch"
+  pure (listToJson (pairJson ratToJson) (Impl.subGrid m ps origin sub))
+
+/-- `BorderRelocator.relocated_grid_from(grid)` and, when `mesh` is present,
+    `relocated_mesh_grid_from(grid, mesh)` and the chained form used by the triangulation meshes
+    (`relocated_mesh_grid_from(grid = relocated grid, mesh)`), in IEEE doubles. -/
+def relocate : Op := fun j => do
+  let grid ← getList (getPair getFloat) (← field j "grid")
+  let sb ← getNats (← field j "sub_border")
+  if sb.any (fun k => k ≥ grid.length) then throw "index_error"
+  let out := Impl.relocatedGridFrom Float.sqrt sb grid
+  let moved := (grid.zip out).map fun (p, q) => !(p.1 == q.1 && p.2 == q.2)
+  let base := [("grid", listToJson (pairJson floatToJson) out), ("moved", boolsToJson moved)]
+  match (j.getObjVal? "mesh").toOption with
+  | none => pure (obj base)
+  | some mj =>
+    let mesh ← getList (getPair getFloat) mj
+    let outM := Impl.relocatedMeshGridFrom Float.sqrt sb grid mesh
+    let outC := Impl.relocatedMeshGridFrom Float.sqrt sb out mesh
+    pure (obj (base ++ [("mesh", listToJson (pairJson floatToJson) outM),
+                        ("mesh_chained", listToJson (pairJson floatToJson) outC)]))
+
+def ops : List (String × Op) :=
+  [("c18.sub_border", subBorder), ("c18.sub_grid", subGrid), ("c18.relocate", relocate)]
 
 end Driver.C18
 
